@@ -423,6 +423,7 @@ fn decode_and_judge<D: WireTy>(
     // (an EOF cut inside the record already makes it not `clean`)
     let injected = inp.fail_fired() && !fired0;
     if biggest >= 1 << 20 {
+        ctx.note(|| format!("  probe: the decoder requested a single allocation of {biggest} bytes while reading {consumed} bytes"));
         ctx.stats.inc("probe.decode_alloc_ge_1MiB");
         if biggest >= 100 << 20 {
             ctx.stats.inc("probe.decode_alloc_ge_100MiB");
